@@ -28,7 +28,50 @@ EN_LAYOUTS = {
     'm / d / yyyy': lambda d: '%d / %d / %d' % (d.month, d.day, d.year),
     'm - d - yyyy': lambda d: '%d - %d - %d' % (d.month, d.day, d.year),
     'm\\d\\yyyy': lambda d: '%d\\%d\\%d' % (d.month, d.day, d.year),
+    # further spellings of the same layouts: zero padding, year first, letter case, abbreviations, ordinal suffixes, weekday in front
+    'mm-dd-yyyy': lambda d: '%02d-%02d-%d' % (d.month, d.day, d.year),
+    'yyyy-m-d': lambda d: '%d-%d-%d' % (d.year, d.month, d.day),
+    'yyyy.mm.dd': lambda d: '%d.%02d.%02d' % (d.year, d.month, d.day),
+    'MONTH d, yyyy': lambda d: '%s %d, %d' % (MON_EN[d.month - 1].upper(), d.day, d.year),
+    'month d, yyyy': lambda d: '%s %d, %d' % (MON_EN[d.month - 1].lower(), d.day, d.year),
+    'Mon. d, yyyy': lambda d: '%s. %d, %d' % (ABB_EN[d.month - 1], d.day, d.year),
+    'Mon d yyyy': lambda d: '%s %d %d' % (ABB_EN[d.month - 1], d.day, d.year),
+    'd Mon yyyy': lambda d: '%d %s %d' % (d.day, ABB_EN[d.month - 1], d.year),
+    'd-Mon-yyyy': lambda d: '%d-%s-%d' % (d.day, ABB_EN[d.month - 1], d.year),
+    'dth Month yyyy': lambda d: '%d%s %s %d' % (d.day, suf(d.day), MON_EN[d.month - 1], d.year),
+    'Month the dth, yyyy': lambda d: '%s the %d%s, %d' % (MON_EN[d.month - 1], d.day, suf(d.day), d.year),
+    'Month dth yyyy': lambda d: '%s %d%s %d' % (MON_EN[d.month - 1], d.day, suf(d.day), d.year),
+    'Wd, Month d, yyyy': lambda d: '%s, %s %d, %d' % (WD_FULL_EN[d.weekday()], MON_EN[d.month - 1], d.day, d.year),
+    'Wd Month d yyyy': lambda d: '%s %s %d %d' % (WD_FULL_EN[d.weekday()], MON_EN[d.month - 1], d.day, d.year),
+    'Wd m/d/yyyy': lambda d: '%s %d/%d/%d' % (WD_FULL_EN[d.weekday()], d.month, d.day, d.year),
+    'Wd, d Month yyyy': lambda d: '%s, %d %s %d' % (WD_FULL_EN[d.weekday()], d.day, MON_EN[d.month - 1], d.year),
+    'd Month, yyyy': lambda d: '%d %s, %d' % (d.day, MON_EN[d.month - 1], d.year),
+    'Month d,yyyy': lambda d: '%s %d,%d' % (MON_EN[d.month - 1], d.day, d.year),
 }
+WD_FULL_EN = ['Monday', 'Tuesday', 'Wednesday', 'Thursday', 'Friday', 'Saturday', 'Sunday']
+WD = {
+    'es-es': ['lunes', 'martes', 'miércoles', 'jueves', 'viernes', 'sábado', 'domingo'],
+    'fr-fr': ['lundi', 'mardi', 'mercredi', 'jeudi', 'vendredi', 'samedi', 'dimanche'],
+    'pt-br': ['segunda-feira', 'terça-feira', 'quarta-feira', 'quinta-feira', 'sexta-feira', 'sábado', 'domingo'],
+    'it-it': ['lunedì', 'martedì', 'mercoledì', 'giovedì', 'venerdì', 'sabato', 'domenica'],
+    'de-de': ['Montag', 'Dienstag', 'Mittwoch', 'Donnerstag', 'Freitag', 'Samstag', 'Sonntag'],
+    'nl-nl': ['maandag', 'dinsdag', 'woensdag', 'donderdag', 'vrijdag', 'zaterdag', 'zondag'],
+    'zh-cn': ['周一', '周二', '周三', '周四', '周五', '周六', '周日'],
+}
+WD['es-mx'] = WD['es-es']
+ABB = {'fr-fr': ['janv', 'févr', 'mars', 'avr', 'mai', 'juin', 'juil', 'août', 'sept', 'oct', 'nov', 'déc'],
+       'es-es': ['ene', 'feb', 'mar', 'abr', 'may', 'jun', 'jul', 'ago', 'sep', 'oct', 'nov', 'dic'], 'it-it': ['gen', 'feb', 'mar', 'apr', 'mag', 'giu', 'lug', 'ago', 'set', 'ott', 'nov', 'dic'],
+       'pt-br': ['jan', 'fev', 'mar', 'abr', 'mai', 'jun', 'jul', 'ago', 'set', 'out', 'nov', 'dez'], 'nl-nl': ['jan', 'feb', 'mrt', 'apr', 'mei', 'jun', 'jul', 'aug', 'sep', 'okt', 'nov', 'dec']}
+ABB['es-mx'] = ABB['es-es']
+ZH_DIGITS = '零一二三四五六七八九'
+
+
+def zh_small(n):
+    if n < 10:
+        return ZH_DIGITS[n]
+    if n < 20:
+        return '十' + (ZH_DIGITS[n % 10] if n % 10 else '')
+    return ZH_DIGITS[n // 10] + '十' + (ZH_DIGITS[n % 10] if n % 10 else '')
 EN_CARRIERS = ['{}', 'I will leave on {}', '{} is the deadline', 'see you on {} .', '   {}', '  we meet {}  ']
 
 CULT = {
@@ -58,6 +101,10 @@ def layouts(culture):
         out['yyyy/m/d'] = lambda d: '%d/%d/%d' % (d.year, d.month, d.day)
         out['yyyy-m-d'] = lambda d: '%d-%d-%d' % (d.year, d.month, d.day)
         out['yyyy年m月d日'] = lambda d: c['name'](d, None)
+        out['yyyy年m月d号'] = lambda d: '%d年%d月%d号' % (d.year, d.month, d.day)
+        out['yyyy年mm月dd日'] = lambda d: '%d年%02d月%02d日' % (d.year, d.month, d.day)
+        out['yyyy.m.d'] = lambda d: '%d.%d.%d' % (d.year, d.month, d.day)
+        out['zh numerals'] = lambda d: '%s年%s月%s日' % (''.join(ZH_DIGITS[int(ch)] for ch in str(d.year)), zh_small(d.month), zh_small(d.day))
     else:
         out['d/m/yyyy'] = lambda d: '%d/%d/%d' % (d.day, d.month, d.year)
         out['d-m-yyyy'] = lambda d: '%d-%d-%d' % (d.day, d.month, d.year)
@@ -69,6 +116,24 @@ def layouts(culture):
         out['d.m.yyyy'] = lambda d: '%d.%d.%d' % (d.day, d.month, d.year)
         out['dd.mm.yyyy'] = lambda d: '%02d.%02d.%d' % (d.day, d.month, d.year)
         out['d\\m\\yyyy'] = lambda d: '%d\\%d\\%d' % (d.day, d.month, d.year)
+        mon, wd = c['months'], WD[culture]
+        out['MONTH-NAME upper'] = lambda d: c['name'](d, mon[d.month - 1]).upper()
+        if culture == 'de-de':
+            out['Wd, d. Month yyyy'] = lambda d: '%s, %d. %s %d' % (wd[d.weekday()], d.day, mon[d.month - 1], d.year)
+            out['den d. Month yyyy'] = lambda d: 'den %d. %s %d' % (d.day, mon[d.month - 1], d.year)
+            out['d.Month yyyy'] = lambda d: '%d.%s %d' % (d.day, mon[d.month - 1], d.year)
+        elif culture == 'fr-fr':
+            out['1er month yyyy'] = lambda d: '%s %s %d' % ('1er' if d.day == 1 else d.day, mon[d.month - 1], d.year)
+            out['wd d month yyyy'] = lambda d: '%s %d %s %d' % (wd[d.weekday()], d.day, mon[d.month - 1], d.year)
+        elif culture in ('es-es', 'es-mx', 'pt-br'):
+            out['wd d de month de yyyy'] = lambda d: '%s %d de %s de %d' % (wd[d.weekday()], d.day, mon[d.month - 1], d.year)
+            out['d month yyyy'] = lambda d: '%d %s %d' % (d.day, mon[d.month - 1], d.year)
+            out['d de abb de yyyy'] = lambda d: '%d de %s de %d' % (d.day, ABB[culture][d.month - 1], d.year)
+            out['d de month del|, yyyy'] = (lambda d: '%d de %s del %d' % (d.day, mon[d.month - 1], d.year)) if culture != 'pt-br' else (lambda d: '%d de %s, %d' % (d.day, mon[d.month - 1], d.year))
+        else:
+            out['wd d month yyyy'] = lambda d: '%s %d %s %d' % (wd[d.weekday()], d.day, mon[d.month - 1], d.year)
+            out['d abb yyyy'] = lambda d: '%d %s %d' % (d.day, ABB[culture][d.month - 1], d.year)
+            out['d month, yyyy'] = lambda d: '%d %s, %d' % (d.day, mon[d.month - 1], d.year)
     return out
 
 
